@@ -14,7 +14,7 @@ fi
 rc=0
 for d in cmd/*/; do
   n=$(basename "$d")
-  cgo=0; [ "$n" = c18 ] && cgo=1
+  cgo=0; { [ "$n" = c18 ] || [ "$n" = c17 ]; } && cgo=1
   if ! CGO_ENABLED=$cgo go build "${OVL[@]}" -tags verif -o "bin/$n" "./cmd/$n" 2> "bin/$n.buildlog"; then
     echo "WARN: cmd/$n does not build (see harness/bin/$n.buildlog)"; rc=0
   fi
